@@ -512,6 +512,106 @@ var builders = []builder{
 		_ = fw.CreateExternalLink("/a/ext", "other.h5", "/x")
 		return fw.Close()
 	}},
+	{"gen/v2_chunked_deep", buildDeepTree},
+}
+
+// buildDeepTree writes a chunked dataset of 130 one-element chunks with the library and then re-shapes its chunk index,
+// which the library writes as ONE leaf of 130 entries, into a two-level version-1 B-tree: the leaf keeps entries 0..64
+// (leaf A), entries 65..129 move to a new leaf B and a new root node of level 1 with the two children is appended; the layout
+// message is pointed at the root. (The writer never splits nodes, and only a tree with internal nodes exercises the
+// reader's descent.)
+func buildDeepTree(path string) error {
+	fw, err := hdf5.CreateForWrite(path, hdf5.CreateTruncate)
+	if err != nil {
+		return err
+	}
+	d, err := fw.CreateDataset("/deep", hdf5.Int32, []uint64{130}, hdf5.WithChunkDims([]uint64{1}))
+	if err != nil {
+		_ = fw.Close()
+		return err
+	}
+	v := make([]int32, 130)
+	for i := range v {
+		v[i] = int32(i * 3)
+	}
+	if err := d.Write(v); err != nil {
+		_ = fw.Close()
+		return err
+	}
+	if err := fw.Close(); err != nil {
+		return err
+	}
+	b, err := os.ReadFile(path)
+	if err != nil {
+		return err
+	}
+	le := binary.LittleEndian
+	const hdr, half = 24, 65 // node header, entries per new leaf
+	ks := 0                  // key size: 4+4+8 per stored coordinate (the writer's count of coordinates is inferred)
+	leaf := -1
+	for i := 0; i+hdr <= len(b); i++ {
+		if string(b[i:i+4]) == "TREE" && b[i+4] == 1 && b[i+5] == 0 && le.Uint16(b[i+6:]) == 130 {
+			leaf = i
+			break
+		}
+	}
+	if leaf < 0 {
+		return fmt.Errorf("deep tree: single leaf of 130 entries not found")
+	}
+	for _, k := range []int{16, 24, 32} {
+		ok := leaf+hdr+130*(k+8)+k <= len(b)
+		for i := 0; ok && i < 130; i++ {
+			p := leaf + hdr + i*(k+8)
+			a := le.Uint64(b[p+k:])
+			ok = le.Uint32(b[p:]) == 4 && le.Uint32(b[p+4:]) == 0 && a >= 48 && a < uint64(len(b))
+		}
+		if ok {
+			ks = k
+			break
+		}
+	}
+	if ks == 0 {
+		return fmt.Errorf("deep tree: key size of the chunk index not recognised")
+	}
+	es := ks + 8
+	for len(b)%8 != 0 {
+		b = append(b, 0)
+	}
+	addrB := len(b)
+	undef := []byte{0xFF, 0xFF, 0xFF, 0xFF, 0xFF, 0xFF, 0xFF, 0xFF}
+	u64 := func(v int) []byte { var x [8]byte; le.PutUint64(x[:], uint64(v)); return x[:] }
+	nodeB := append([]byte("TREE\x01\x00"), byte(half), 0)
+	nodeB = append(append(nodeB, u64(leaf)...), undef...)
+	nodeB = append(nodeB, b[leaf+hdr+half*es:leaf+hdr+130*es+ks]...)
+	b = append(b, nodeB...)
+	addrRoot := len(b)
+	root := append([]byte("TREE\x01\x01"), 2, 0)
+	root = append(append(root, undef...), undef...)
+	root = append(root, b[leaf+hdr:leaf+hdr+ks]...) // key 0
+	root = append(root, u64(leaf)...)
+	root = append(root, b[leaf+hdr+half*es:leaf+hdr+half*es+ks]...) // key 65 = first key of leaf B
+	root = append(root, u64(addrB)...)
+	root = append(root, b[leaf+hdr+130*es:leaf+hdr+130*es+ks]...) // final key
+	b = append(b, root...)
+	// leaf A: 65 entries, right sibling B
+	le.PutUint16(b[leaf+6:], half)
+	copy(b[leaf+16:], u64(addrB))
+	// the layout message holds the address of the index: the only 8-byte field equal to the old node address
+	n := 0
+	for i := 48; i+8 <= leaf; i++ {
+		if le.Uint64(b[i:]) == uint64(leaf) {
+			copy(b[i:], u64(addrRoot))
+			n++
+		}
+	}
+	if n != 1 {
+		return fmt.Errorf("deep tree: %d references to the chunk index found, expected 1", n)
+	}
+	// end-of-file address of the version-2 superblock (bytes 28..35); its checksum is not verified by the reader
+	if b[8] >= 2 {
+		le.PutUint64(b[28:], uint64(len(b)))
+	}
+	return os.WriteFile(path, b, 0o644)
 }
 
 // ---- registry -------------------------------------------------------------------------------------
